@@ -1658,7 +1658,8 @@ impl Server {
                 "ZADD" | "ZREM" | "ZINCRBY" | "ZPOPMIN" | "ZPOPMAX" |
                 "XADD" | "XTRIM" | "XDEL" |  // Stream write commands
                 "XGROUP" | "XACK" | "XCLAIM" |  // Consumer group write commands
-                "MSET" | "APPEND" | "SETRANGE" | "RENAME" | "RENAMENX" | "PERSIST" | "EVAL" | "EVALSHA"
+                "MSET" | "APPEND" | "SETRANGE" | "RENAME" | "RENAMENX" | "PERSIST" | "EVAL" | "EVALSHA" |
+                "GETSET" | "HMSET" | "PEXPIRE"
             )
         }
     }
